@@ -260,9 +260,7 @@ def rule_key(ctx):
     ok = f'heapq.nsmallest(1, self.{H}, key=self._small_key)[0]' in src and f'heapq.nlargest(1, self.{H}, key=self._large_key)[0]' in src \
         and "raise KeyError('peek from an empty task queue')" in src and 'if task is not self._REMOVED: return (prio, task)' in src
     ctx.ob('C09.key', f'{mod.name}:TaskQueue.peek', ok, 'peek returns the smallest/largest live entry or raises KeyError', pk.node, mod)
-    it = tq.methods['__iter__']
-    src = full(it.node)
-    ok = f'queue = heapq.nsmallest(len(self.{H}), self.{H})' in src and 'if task is not type(self)._REMOVED: yield (prio, task)' in src
+    it, ok = iter_ordered(ctx.repo, H)
     ctx.ob('C09.key', f'{mod.name}:TaskQueue.__iter__', ok, 'iteration yields live entries in (prio, count) order', it.node, mod)
 
 
@@ -427,6 +425,27 @@ def rule_use(ctx):
 def _nth(fnode, call):
     same = [c for c in U.calls(fnode) if norm(c) == norm(call)]
     return f'#{[i for i, c in enumerate(same) if c is call][0]}'
+
+
+def iter_ordered(repo, H='_queue'):
+    """TaskQueue.__iter__ orders whole entries [prio, count, task] (count is unique, so the task is never compared): the
+    accepted forms are heapq.nsmallest(len(h), h) and sorted(h), optionally keyed by the first two fields."""
+    tq = repo.cls('sc3.base._taskq:TaskQueue')
+    it = tq.methods['__iter__']
+    src = full(it.node)
+    forms = (f'heapq.nsmallest(len(self.{H}), self.{H})', f'sorted(self.{H})',
+             f'sorted(self.{H}, key=lambda entry: entry[:2])', f'sorted(self.{H}, key=lambda e: e[:2])')
+    loops = [n for n in walk_local(it.node) if isinstance(n, ast.For)]
+    ok = len(loops) == 1
+    if ok:
+        itx = loops[0].iter
+        if isinstance(itx, ast.Name):
+            defs = [n for n in walk_local(it.node) if isinstance(n, ast.Assign) and norm(n.targets[0]) == itx.id]
+            ok = len(defs) == 1 and norm(defs[0].value) in forms
+        else:
+            ok = norm(itx) in forms
+    ok = ok and 'if task is not type(self)._REMOVED: yield (prio, task)' in src
+    return it, ok
 
 
 def identity_fields(repo, ci):
